@@ -496,7 +496,7 @@ func c16KeyModel(initial map[string]string) porcupine.Model {
 
 var c16Hangs int32 // cases whose child process had to be killed
 
-var raceEnabled = false // set by race_on.go under the race build tag
+var c16RaceEnabled = false // set by race_on.go under the race build tag
 
 func raceSummary(stderr string) string {
 	var keep []string
@@ -621,7 +621,7 @@ func runC16(ops []string) (res CaseResult) {
 		}
 		sort.Strings(res.Tags)
 	}()
-	if !raceEnabled {
+	if !c16RaceEnabled {
 		tags["race-detector-off"] = true
 	}
 	if runErr != nil {
